@@ -720,6 +720,7 @@ public:
             m_elem[i].idx = sv.index(i);
          }
 
+         set_size(sv.size());
          assert(isConsistent());
       }
 
@@ -751,6 +752,7 @@ public:
             }
          }
 
+         set_size(sv.size());
          assert(isConsistent());
       }
 
